@@ -33,7 +33,9 @@ RULE = ("exhaustive: every hierarchy of n<=5 classes in which class i takes any 
         "import each other (only layouts CPython's import system accepts), bases named through aliases bound only in the "
         "declaring module, every processing order of the modules; every hierarchy of n<=4 classes plus random ones as a module with "
         "Exception bases, m/__new__/__init__ members (functions or attributes) and hidden classes through Class.mro(flags), "
-        "is_exception, _find_dunder_constructor, get_override_info, overriding_subclasses, inherited_members; a deterministic corpus "
+        "is_exception, _find_dunder_constructor, get_override_info, overriding_subclasses, inherited_members; hierarchies nested in a "
+        "class body whose bases are sibling nested classes, with the same names also bound at module level (class statement "
+        "before/after, import) and used there; probes that look a name up through a class during the visit; a deterministic corpus "
         "(corpus/C05: inputs of past findings, shapes of the seeded changes) runs first in each stream. Non-trivial = at least one class has two or "
         "more bases.")
 ASSUMPTIONS = [
@@ -1210,7 +1212,7 @@ def run(ctx: Ctx) -> None:
     for n in range(1, 5):
         for h in dup_hierarchies(n):
             bare(h, "duplicate-bases")
-    nrand = 1000 if ctx.quick else 20000
+    nrand = 700 if ctx.quick else 20000
     for _ in range(nrand):
         h = random_hierarchy(ctx.rng, ctx.rng.randint(6, 12))
         bare(h, "random")
@@ -1338,7 +1340,7 @@ def run(ctx: Ctx) -> None:
         for h in hierarchies(n):
             uprojects.append(gen_uses(ctx.rng, n, h=h))
     ctx.extra["exhaustive_cases_uses"] = len(uprojects)
-    for _ in range(250 if ctx.quick else 4000):
+    for _ in range(200 if ctx.quick else 4000):
         uprojects.append(gen_uses(ctx.rng, ctx.rng.randint(5, 10)))
     ureq, uout, upay = [], [], []
     for p in uprojects:
